@@ -473,7 +473,7 @@ def run_program(prog, backends=("pol", "sqlite"), opts=None, be_cache=None) -> O
                 prob, judged_as = compare.compare_with_ref(df, rf.env[h], mode, single_precision_inputs=f32_inputs)
                 out.probes_judged += 1
                 out.judged_as[judged_as] = out.judged_as.get(judged_as, 0) + 1
-                if prob and be == "pol" and contradiction_in_filter(prog, h, rf.env) and _unoptimized_plan_agrees(rr.env[h], rf.env[h], mode, f32_inputs):
+                if prob and be == "pol" and (contradiction_in_filter(prog, h, rf.env) or has_constant_condition(prog)) and _unoptimized_plan_agrees(rr.env[h], rf.env[h], mode, f32_inputs):
                     # D22: the LazyFrame that pydiverse.transform built is right - collected without the Polars optimizer it
                     # equals REF - and only the optimized execution differs: an engine bug, not the library's
                     out.excluded[be] = "D22"
